@@ -189,6 +189,10 @@ def diff_snap(before, after):
 # ---------------------------------------------------------------------------
 # interposers
 
+class SimCrash(BaseException):
+    """The simulated process is killed at this instant (only what reached the disk survives)."""
+
+
 class _ScandirIter:
     def __init__(self, entries):
         self._it = iter(entries)
@@ -226,7 +230,7 @@ class _WFile:
                 self._f.write(data[:k])
                 self._f.flush()
             s._ev("write", self._rel, len(data), "FAULT:" + fault["errno"])
-            raise OSError(getattr(_errno, fault["errno"]), os.strerror(getattr(_errno, fault["errno"])), self._f.name)
+            raise s._oserr(fault, self._f.name)
         s._ev("write", self._rel, len(data), "ok")
         return self._f.write(data)
 
@@ -246,7 +250,7 @@ class _WFile:
             except OSError:
                 pass
             s._ev("close", self._rel, "", "FAULT:" + fault["errno"])
-            raise OSError(getattr(_errno, fault["errno"]), os.strerror(getattr(_errno, fault["errno"])), self._f.name)
+            raise s._oserr(fault, self._f.name)
         s._ev("close", self._rel, "", "ok")
         self._f.close()
 
@@ -305,17 +309,22 @@ class Sim:
     def _ev(self, op, rel, detail, outcome):
         self.events.append([len(self.events), op, rel, detail, outcome])
 
-    def _fault(self, seam):
+    def _fault(self, seam, rel=None):
+        """A fault fires on the nth event of its seam, or (if it has "match") on the first event of the seam
+        whose path contains that substring."""
         n = self.counts.get(seam, 0) + 1
         self.counts[seam] = n
         for f in self.faults:
-            if f["seam"] == seam and f["nth"] == n and not f.get("_fired"):
+            hit = (f.get("match") in rel) if (f.get("match") and rel is not None) else (f.get("nth") == n and not f.get("match"))
+            if f["seam"] == seam and hit and not f.get("_fired"):
                 f["_fired"] = True
                 self.fired.append({k: v for k, v in f.items() if k != "_fired"})
                 return f
         return None
 
     def _oserr(self, fault, path):
+        if fault["errno"] == "CRASH":
+            return SimCrash(f"killed at {fault['seam']} of {path}")
         code = getattr(_errno, fault["errno"])
         return OSError(code, os.strerror(code), str(path))
 
@@ -357,7 +366,7 @@ class Sim:
         rel = self.rel(file)
         writing = any(c in mode for c in "wax+")
         if writing:
-            fault = self._fault("open_w")
+            fault = self._fault("open_w", rel)
             if fault is not None:
                 self._ev("open", rel, mode, "FAULT:" + fault["errno"])
                 raise self._oserr(fault, file)
@@ -368,7 +377,7 @@ class Sim:
                 raise
             self._ev("open", rel, mode, "ok")
             return _WFile(self, f, rel)
-        fault = self._fault("open_r")
+        fault = self._fault("open_r", rel)
         if fault is not None:
             self._ev("open", rel, mode, "FAULT:" + fault["errno"])
             raise self._oserr(fault, file)
